@@ -510,3 +510,106 @@ Proof.
     + vm_compute; reflexivity.
     + unfold client_sent; name_is Hn. cbn. rewrite Ha. reflexivity.
 Qed.
+
+(* the guard on PinPath is necessary: POST /pins/ipns/recover is the Recover route with hash = "ipns" *)
+Definition recover_call : ccall := mk_ccall "PinPath" false "" "" (Some "/ipns/recover") "" None (Some ["/ipns/recover"; "o"]).
+Definition recover_env : cenv := mk_cenv None None None None (Some "/ipns/recover") (Some "o") None None "" [] "{}".
+
+Lemma pinpath_recover_run : client_run recover_call recover_env = mk_cres [] 400 None false.
+Proof. vm_compute. reflexivity. Qed.
+
+Lemma pinpath_recover_refuted_l :
+  In (cc_name recover_call) known_calls /\ cauthorized recover_env = true /\ rt_ok recover_call recover_env "o" ""
+  /\ (exists p, cc_path recover_call = Some p /\ ipfs_path_ok false p)
+  /\ ~ arrives recover_env (client_sent recover_call recover_env "o" "") (client_run recover_call recover_env).
+Proof.
+  split; [vm_compute; tauto|]. split; [reflexivity|]. split.
+  { unfold rt_ok. cbn [cc_name recover_call In].
+    split; [intros H; repeat (destruct H as [H|H]; try discriminate); contradiction|].
+    split; [intros _; split; [intros p Hp; inversion Hp; subst; reflexivity | reflexivity]|].
+    split; [intros H; repeat (destruct H as [H|H]; try discriminate); contradiction|].
+    split; [intros H; discriminate|].
+    intros H; repeat (destruct H as [H|H]; try discriminate); contradiction. }
+  split.
+  { exists "/ipns/recover". split; [reflexivity|]. exists "ipns", "recover". repeat split; try discriminate. cbn; tauto. }
+  intros H. pose proof (ar_error _ _ _ H) as He. rewrite pinpath_recover_run in He. cbn in He.
+  assert (X : false = true) by (apply He; discriminate). discriminate.
+Qed.
+
+(* non-vacuity of the guards *)
+Example client_guard_example :
+  let c := mk_ccall "PinPath" false "QmCid" "QmPeer" (Some "/ipfs/QmCid/a/b/") "ping" (Some "") None in
+  client_guard c /\ plain_seg "ping" /\ ~ plain_seg "a/b".
+Proof.
+  cbv zeta. split; [|split].
+  - unfold client_guard. cbn [cc_name cc_cid cc_peer cc_mname cc_path cc_filter In]. repeat split;
+      try (intros H; repeat (destruct H as [H|H]; try discriminate); contradiction); try discriminate.
+    intros _. exists "/ipfs/QmCid/a/b/". split; [reflexivity|]. exists "ipfs", "QmCid/a/b". repeat split; try discriminate. cbn; tauto.
+  - split; [discriminate | reflexivity].
+  - intros [_ H]. discriminate.
+Qed.
+
+(* ------------------------------------------------------------------------------------------ *)
+(* the boolean monitor for client cases                                                       *)
+(* ------------------------------------------------------------------------------------------ *)
+Inductive ClientSpec (c : ccall) (e : cenv) (o : cobs) : Prop :=
+| CS_unauth : cauthorized e = false -> (co_err o = 401%Z \/ co_refused o = true) -> co_calls o = [] -> ClientSpec c e o
+| CS_refused : cauthorized e = true -> client_expected c = None -> co_calls o = [] -> co_err o <> 0%Z -> ClientSpec c e o
+| CS_ok exp : cauthorized e = true -> client_expected c = Some exp -> co_err o = 0%Z ->
+    co_calls o = ok_calls exp -> co_ret o = ce_answer e -> ClientSpec c e o
+| CS_err exp : cauthorized e = true -> client_expected c = Some exp -> co_err o <> 0%Z ->
+    any_failed (co_calls o) = true -> performed (co_calls o) exp -> ClientSpec c e o.
+
+Lemma spec_okb_client_sound c e o : spec_okb_client c e o = true -> ClientSpec c e o.
+Proof.
+  unfold spec_okb_client. rewrite is_nil_true. unfold spec_codes_client.
+  destruct (cauthorized e) eqn:Ha; cbn [negb].
+  2:{ intros H. apply if_nil_true in H. apply andb_prop in H as [H1 H2]. apply CS_unauth; [exact Ha | | apply is_nil_true; exact H2].
+      apply orb_prop in H1 as [H1|H1]; [left; apply Z.eqb_eq; exact H1 | right; exact H1]. }
+  destruct (client_expected c) as [exp|] eqn:Ee.
+  - destruct (Z.eqb (co_err o) 0) eqn:Ez.
+    + intros H. apply app_eq_nil in H as [H1 H2]. apply if_nil_true in H1. apply if_nil_true in H2.
+      apply CS_ok with (exp := exp); [exact Ha | exact Ee | apply Z.eqb_eq; exact Ez | apply rcalls_eqb_eq; exact H1 | apply String.eqb_eq; exact H2].
+    + intros H. apply if_nil_true in H. apply andb_prop in H as [H1 H2].
+      apply CS_err with (exp := exp); [exact Ha | exact Ee | apply Z.eqb_neq; exact Ez | exact H1 | apply prefix_ops_performed; exact H2].
+  - intros H. apply if_nil_true in H. apply andb_prop in H as [H1 H2].
+    apply CS_refused; [exact Ha | exact Ee | apply is_nil_true; exact H1 |].
+    apply negb_true_iff in H2. apply Z.eqb_neq. exact H2.
+Qed.
+
+Definition cobs_of (r : cres) : cobs :=
+  mk_cobs (cr_calls r) (cr_err r) (match cr_ret r with Some s => s | None => "" end) (cr_refused r).
+
+(* without a listed pair the library's call performs nothing, whatever the call *)
+Lemma client_unauth_l c e : cauthorized e = false ->
+  cr_calls (client_run c e) = [] /\ (cr_err (client_run c e) = 401%Z \/ cr_refused (client_run c e) = true).
+Proof.
+  intros Ha. unfold client_run. destruct (client_request c) as [rq|]; [|split; [reflexivity | right; reflexivity]].
+  assert (Hn : ~ listed_pair (renv_of c e)).
+  { rewrite <- authorized_spec. change (authorized (renv_of c e)) with (cauthorized e). rewrite Ha. discriminate. }
+  destruct (auth_total_l rq (renv_of c e) Hn) as (H1 & H2 & _).
+  rewrite H2. cbn. split; [exact H1 | left; reflexivity].
+Qed.
+
+Lemma arrives_codes c e sent : cauthorized e = true -> client_expected c = Some sent ->
+  arrives e sent (client_run c e) -> spec_okb_client c e (cobs_of (client_run c e)) = true.
+Proof.
+  intros Ha He H. unfold spec_okb_client. apply is_nil_true. unfold spec_codes_client. rewrite Ha, He. cbn [negb cobs_of co_err co_calls co_ret].
+  destruct (Z.eqb (cr_err (client_run c e)) 0) eqn:Ez.
+  - apply Z.eqb_eq in Ez. destruct (ar_success _ _ _ H Ez) as [H1 H2]. rewrite H1, H2, rcalls_eqb_refl, String.eqb_refl. reflexivity.
+  - apply Z.eqb_neq in Ez. rewrite (ar_error _ _ _ H Ez). cbn [andb].
+    rewrite (proj2 (prefix_ops_performed _ _) (ar_performed _ _ _ H)). reflexivity.
+Qed.
+
+(* the model passes the client monitor: always when credentials are missing, and for every known call whose given
+   arguments (as rendered by the harness, cc_given) are the ones the round trip preserves *)
+Lemma client_model_satisfies_l c e o f :
+  (cauthorized e = true -> In (cc_name c) known_calls /\ client_guard c /\ rt_ok c e o f /\ client_expected c = Some (client_sent c e o f)) ->
+  spec_okb_client c e (cobs_of (client_run c e)) = true.
+Proof.
+  intros H. destruct (cauthorized e) eqn:Ha.
+  - destruct (H eq_refl) as (Hk & Hg & Hr & He). apply (arrives_codes c e _ Ha He). apply client_faithful_l; assumption.
+  - unfold spec_okb_client. apply is_nil_true. unfold spec_codes_client. rewrite Ha. cbn [negb cobs_of co_err co_calls co_refused].
+    destruct (client_unauth_l c e Ha) as [H1 H2]. rewrite H1. cbn [is_nil]. rewrite andb_true_r.
+    destruct H2 as [H2|H2]; rewrite H2; [reflexivity | rewrite orb_true_r; reflexivity].
+Qed.
